@@ -7,6 +7,7 @@ package main
 // map, PARSE5 the whole source is consumed, PARSE6 String() returns the source.
 
 import (
+	"go/types"
 	"fmt"
 	"go/ast"
 	"go/constant"
@@ -833,31 +834,62 @@ func rulePARSE56(p *Program) *RuleResult {
 		if err != nil {
 			return r.anchorFail(err)
 		}
-		var stored string
-		for _, b := range comp.Blocks {
-			for _, ins := range b.Instrs {
-				if st, ok := ins.(*ssa.Store); ok {
-					if fa, ok := st.Addr.(*ssa.FieldAddr); ok && st.Val == ssa.Value(comp.Params[0]) {
-						stored = fieldName(fa)
-					}
-				}
-			}
+		// Compile is analysed on a marked source text with configuration, parsing and
+		// visiting answering success; String() is then analysed on the Expression handed back
+		env, err := newVisitorEnv(p)
+		if err != nil {
+			return r.anchorFail(err)
 		}
-		var returned string
-		for _, b := range str.Blocks {
-			if ret, ok := b.Instrs[len(b.Instrs)-1].(*ssa.Return); ok && len(ret.Results) == 1 {
-				if ld, ok := ret.Results[0].(*ssa.UnOp); ok {
-					if fa, ok := ld.X.(*ssa.FieldAddr); ok {
-						returned = fieldName(fa)
-					}
+		const marker = "«the source text»"
+		an := newAnalyzer()
+		an.maxBlocks = 300
+		an.snapshots = true
+		an.fnModel = func(sc *ssa.Function, args []aval) (aval, bool) {
+			switch {
+			case sc.Name() == "PopulateConfig" && inRepoFn(sc):
+				return aval{k: kTuple, tup: []aval{nonnil("config"), {k: kNil}}}, true
+			case sc.Name() == "Tree" && strings.HasSuffix(fnPkgPath(sc), "/internal/compile"):
+				return aval{k: kTuple, tup: []aval{nonnil("tree"), {k: kNil}}}, true
+			case sc.Name() == "Visit" && sc.Signature.Recv() != nil && namedName(sc.Signature.Recv().Type()) == "FHIRPathVisitor":
+				st := aval{k: kStruct, elems: make([]aval, env.vrType.Underlying().(*types.Struct).NumFields())}
+				for i := range st.elems {
+					st.elems[i] = top
 				}
+				st.elems[env.resIdx] = nonnil("compiled-node")
+				st.elems[env.errIdx] = aval{k: kNil}
+				out := ptrTo(st)
+				out.dyn = env.vrPtr
+				return out, true
 			}
+			return aval{}, false
 		}
+		res := an.analyze(comp, []aval{cStr(marker), top})
 		key := pkg + "|String"
-		if stored != "" && stored == returned {
-			r.ok(key, fmt.Sprintf("%s: Compile stores its source parameter in %q and String() returns that field", pkg, stored), p.pos(str.Pos()), "value provenance", true)
+		var exprs []aval
+		for _, ri := range res.rets {
+			if len(ri.vals) == 2 && ri.vals[1].k == kNil {
+				exprs = append(exprs, ri.vals[0])
+			}
+		}
+		if len(exprs) == 0 {
+			r.undecided(key, pkg+": no successful return of Compile could be analysed", p.pos(comp.Pos()), "unsupported shape")
+			continue
+		}
+		okAll := true
+		got := ""
+		for _, e := range exprs {
+			an2 := newAnalyzer()
+			an2.maxBlocks = 100
+			v, isStr := constStr(an2.analyze(str, []aval{e}).joinedReturn())
+			if !isStr || v != marker {
+				okAll = false
+				got = fmt.Sprintf("%v", an2.analyze(str, []aval{e}).joinedReturn())
+			}
+		}
+		if okAll {
+			r.ok(key, pkg+": String() of the Expression that Compile hands back is the source text it was given", p.pos(str.Pos()), "constant propagation through Compile and String() on a marked source text", true)
 		} else {
-			r.bad(key, fmt.Sprintf("%s: Compile stores the source in %q, String() returns %q", pkg, stored, returned), p.pos(str.Pos()), "String() does not return the source text verbatim")
+			r.bad(key, fmt.Sprintf("%s: String() of a compiled expression yields %s, not the source text", pkg, got), p.pos(str.Pos()), "String() does not return the source text verbatim")
 		}
 	}
 	return r
